@@ -212,18 +212,34 @@ Qed.
 (* frame facts shared by the heap primitives *)
 Definition same_ports (s s' : state) : Prop :=
   s_puniv s' = s_puniv s /\ s_pprio s' = s_pprio s /\ s_pinh s' = s_pinh s /\ s_pdead s' = s_pdead s.
-Definition keeps_live (s s' : state) : Prop :=
+(* live cells stay live with their number *)
+Definition keeps_num (s s' : state) : Prop :=
   forall x u, s_heap s x = Live u -> exists u', s_heap s' x = Live u' /\ u_num u' = u_num u.
+(* ... and keep every source client they had *)
+Definition keeps_live (s s' : state) : Prop :=
+  forall x u, s_heap s x = Live u ->
+    exists u', s_heap s' x = Live u' /\ u_num u' = u_num u /\ incl (u_src u) (u_src u').
 
+Lemma keeps_live_num s s' : keeps_live s s' -> keeps_num s s'.
+Proof. intros K x u H. destruct (K x u H) as (u' & A & B & _). eauto. Qed.
 Lemma same_ports_refl s : same_ports s s.
 Proof. repeat split. Qed.
-Lemma keeps_live_refl s : keeps_live s s.
+Lemma keeps_num_refl s : keeps_num s s.
 Proof. intros x u H. eauto. Qed.
-Lemma keeps_live_trans a b d : keeps_live a b -> keeps_live b d -> keeps_live a d.
+Lemma keeps_num_trans a b d : keeps_num a b -> keeps_num b d -> keeps_num a d.
 Proof.
   intros H1 H2 x u H. destruct (H1 x u H) as (u1 & A & B). destruct (H2 x u1 A) as (u2 & C & D).
   exists u2. split; [exact C | congruence].
 Qed.
+Lemma keeps_live_refl s : keeps_live s s.
+Proof. intros x u H. exists u. split; [exact H|]. split; [reflexivity | apply incl_refl]. Qed.
+Lemma keeps_live_trans a b d : keeps_live a b -> keeps_live b d -> keeps_live a d.
+Proof.
+  intros H1 H2 x u H. destruct (H1 x u H) as (u1 & A & B & B2). destruct (H2 x u1 A) as (u2 & C & D & D2).
+  exists u2. split; [exact C|]. split; [congruence | exact (incl_tran B2 D2)].
+Qed.
+Lemma u_src_set_ports inp u l : u_src (uni_set_ports inp u l) = u_src u.
+Proof. destruct inp; reflexivity. Qed.
 Lemma same_ports_trans a b d : same_ports a b -> same_ports b d -> same_ports a d.
 Proof. intros (A1 & A2 & A3 & A4) (B1 & B2 & B3 & B4). repeat split; congruence. Qed.
 
@@ -271,8 +287,9 @@ Proof.
     + intros x H. right. exact H.
   - repeat split; assumption.
   - intros x ux H. rewrite F5. cbn. destruct (N.eq_dec x o) as [->|Ne].
-    + rewrite upd_eq. exists u'. split; [reflexivity|]. unfold u'. rewrite u_num_set_ports. congruence.
-    + rewrite upd_neq by exact Ne. eauto.
+    + rewrite upd_eq. exists u'. split; [reflexivity|]. unfold u'. rewrite u_num_set_ports, u_src_set_ports.
+      split; [congruence|]. replace ux with u by congruence. apply incl_refl.
+    + rewrite upd_neq by exact Ne. exists ux. split; [exact H|]. split; [reflexivity | apply incl_refl].
 Qed.
 
 (* Universe::GenericAddPort *)
@@ -317,8 +334,9 @@ Proof.
     + intros x H. left. destruct Hex as [E|E]; congruence.
   - repeat split.
   - intros x ux H. cbn. destruct (N.eq_dec x o) as [->|Ne].
-    + rewrite upd_eq. exists u'. split; [reflexivity|]. unfold u'. rewrite u_num_set_ports. congruence.
-    + rewrite upd_neq by exact Ne. eauto.
+    + rewrite upd_eq. exists u'. split; [reflexivity|]. unfold u'. rewrite u_num_set_ports, u_src_set_ports.
+      split; [congruence|]. replace ux with u by congruence. apply incl_refl.
+    + rewrite upd_neq by exact Ne. exists ux. split; [exact H|]. split; [reflexivity | apply incl_refl].
 Qed.
 
 (* UniverseStore::GetUniverseOrCreate *)
@@ -366,7 +384,8 @@ Proof.
       * intros o H. rewrite upd_neq by lia. apply (wf_next _ _ _ _ W). lia.
     + cbn. rewrite upd_eq. eexists. split; reflexivity.
     + repeat split.
-    + intros x u H. cbn. rewrite upd_neq by (eapply Hne; eassumption). eauto.
+    + intros x u H. cbn. rewrite upd_neq by (eapply Hne; eassumption).
+      exists u. split; [exact H|]. split; [reflexivity | apply incl_refl].
     + intros x u H. cbn. rewrite upd_neq by (eapply Hne; eassumption). exact H.
 Qed.
 
